@@ -37,8 +37,16 @@ pub trait DataInput {
 
     /// Read a vector of bytes with the specified length
     fn read_vec(&mut self, len: usize) -> Result<Vec<u8>> {
-        let mut buf = vec![0u8; len];
-        self.read_bytes(&mut buf)?;
+        // `len` usually comes from a length prefix in the input itself, so it must not be
+        // trusted for a single up-front allocation: grow the buffer only as data arrives.
+        const CHUNK: usize = 64 * 1024;
+        let mut buf = Vec::with_capacity(len.min(CHUNK));
+        while buf.len() < len {
+            let start = buf.len();
+            let step = (len - start).min(CHUNK);
+            buf.resize(start + step, 0);
+            self.read_bytes(&mut buf[start..])?;
+        }
         Ok(buf)
     }
 
@@ -162,7 +170,7 @@ impl<'a> DataInput for SliceDataInput<'a> {
     }
 
     fn skip(&mut self, n: usize) -> Result<()> {
-        if self.position + n > self.data.len() {
+        if n > self.data.len() - self.position {
             return Err(ZiporaError::io_error("Cannot skip past end of data"));
         }
         self.position += n;
@@ -386,7 +394,7 @@ impl DataInput for MmapDataInput {
     }
 
     fn skip(&mut self, n: usize) -> Result<()> {
-        if self.position + n > self.mmap.len() {
+        if n > self.mmap.len() - self.position {
             return Err(ZiporaError::io_error("Cannot skip past end of data"));
         }
         self.position += n;
